@@ -263,6 +263,11 @@ fn spec_for(c: &PsoCase, iters: u32) -> Spec<RealP> {
                         cond,
                     ))
                     .build())
+            } else if c.assembly == 6 {
+                // the loop runs while an evaluation budget or the iteration bound allows it: the iteration
+                // bound (which reports the loop's progress) is the second operand of an `or`
+                let cond = mahf::conditions::LessThanN::evaluations(2 * c.n + 1) | cond;
+                pso::real_pso(pso::RealProblemParameters { num_particles: c.n, start_weight: c.start_w, end_weight: c.end_w, c_one: c.c1, c_two: c.c2, v_max: c.v_max }, cond)
             } else if c.assembly == 0 || c.assembly == 5 {
                 pso::real_pso(pso::RealProblemParameters { num_particles: c.n, start_weight: c.start_w, end_weight: c.end_w, c_one: c.c1, c_two: c.c2, v_max: c.v_max }, cond)
             } else {
@@ -316,7 +321,7 @@ pub fn cases(thorough: bool) -> Vec<PsoCase> {
                     if !thorough && sw == 1.2 && vmax != width {
                         continue;
                     }
-                    for assembly in 0..6u8 {
+                    for assembly in 0..7u8 {
                         if assembly > 0 && (sw != 0.9 || (!thorough && vmax != width)) {
                             continue;
                         }
@@ -327,6 +332,12 @@ pub fn cases(thorough: bool) -> Vec<PsoCase> {
                     }
                 }
             }
+        }
+    }
+    // stored weights above 1 without random terms: the old velocity is scaled by exactly the stored weight
+    for (sw, ew) in [(1.25, 1.25), (1.3, 0.4), (0.9, 1.37)] {
+        for &n in &[1u32, 3] {
+            v.push(PsoCase { n, dim: 2, start_w: sw, end_w: ew, c1: 0.0, c2: 0.0, v_max: 10.0 * width, kind: 0, assembly: 0 });
         }
     }
     v
@@ -348,7 +359,7 @@ fn run_case(c: &PsoCase, iters: u32) -> CaseOut {
 
 pub fn run(rep: &mut Report) {
     let thorough = rep.tier == Tier::Thorough;
-    rep.alpha("real_pso and harness-assembled swarms (no inertia update / toroidal repair / a constraint component with a scoped loop of its own / all swarm state under the identifier A / a log rule triggered by an iteration bound of its own): swarm sizes 1..4, dimension 1..2, v_max in {0.05, 1, 10} x domain width, three weight/coefficient sets, three objective functions");
+    rep.alpha("real_pso and harness-assembled swarms (no inertia update / toroidal repair / a constraint component with a scoped loop of its own / all swarm state under the identifier A / a log rule triggered by an iteration bound of its own / the iteration bound as second operand of an `or` loop condition): swarm sizes 1..4, dimension 1..2, v_max in {0.05, 1, 10} x domain width, three weight/coefficient sets, three objective functions");
     rep.alpha("environment: default generator stream with at most one replaced word (menu of 8 / 19 words) at every draw position; observer around every velocity update, after every inertia mapping, evaluator, personal-best and global-best update");
     rep.assume("which weight scales the old velocity is decided (a) exactly in cases without random terms (c1 = c2 = 0): v_new = clamp(w_stored * v_old), and (b) otherwise by decoding the random factors from the generator words logged during the step (either assignment of the two factors) and comparing the stored against the configured weight; x_after = x_before + v_after is required bit-exactly");
     let iters = if thorough { 4 } else { 3 };
